@@ -216,6 +216,7 @@ func drivePublisher(c *ctx) error {
 		"on the real notifications publisher (a marker publish waits for the command queue to drain after every call); " +
 		"non-trivial = at least 3 events delivered and some subscription ended; distinct = distinct (script, observation) terms"
 	add := func(pc pubCase, tag string) {
+		c.inflight(pc)
 		obs, nev, to := runPubCase(pc)
 		ended := false
 		for _, o := range pc.Ops {
